@@ -23,39 +23,51 @@ fn last_write(spi: &SpiLog, reg: u8) -> Option<u8> {
     v
 }
 
-//@h id=ldro_rule_sx1276 props=C15 tier=quick build=phy cost=40 timeout=900
-//@bounds all 8 SF x 10 BW x 4 CR, any frequency >= 400 MHz, arbitrary prior register contents: decision and RegModemConfig3 bit 3
-//@encodes Sx127x::create_modulation_params, Sx1276::set_modulation_params, Sx1276::bandwidth_value
+//@h id=ldro_rule_sx1276 props=C15 tier=quick build=phy cost=20 timeout=900
+//@bounds all 8 SF x 10 BW x 4 CR, any frequency >= 400 MHz: LDRO decision of Sx127x::create_modulation_params (SX1276 variant)
+//@encodes Sx127x::create_modulation_params, Sx1276::bandwidth_value, spreading_factor_value
 #[kani::proof]
 #[kani::unwind(26)]
 fn ldro_rule_sx1276() {
-    let mut r = radio_1276();
-    r.data = Default::default();
+    let r = radio_1276();
     let (sf, bw, cr) = (any_sf(), any_bw(), any_cr());
     let f: u32 = kani::any();
     kani::assume(f >= 400_000_000);
     match r.create_modulation_params(sf, bw, cr, f) {
         Ok(mp) => {
             kani::cover!(mp.low_data_rate_optimize == 1, "ldro on");
+            kani::assert(mp.low_data_rate_optimize <= 1, "C15: LDRO flag is 0/1");
             kani::assert((mp.low_data_rate_optimize != 0) == ref_ldro(sf, bw), "C15: SX127x LDRO decision differs from 2^SF/BW >= 16.38 ms");
-            let res = block_on(r.set_modulation_params(&mp));
-            kani::assert(res.is_ok(), "set_modulation_params failed on a fault-free bus");
-            match last_write(spi(), 0x26) {
-                Some(v) => kani::assert((v & 0x08 != 0) == ref_ldro(sf, bw), "C15: RegModemConfig3.LowDataRateOptimize programmed into the SX1276"),
-                None => kani::assert(false, "C15: RegModemConfig3 not written"),
-            }
         }
         Err(_) => kani::assert(matches!(sf, SpreadingFactor::_5), "C15: only SF5 is unsupported by the SX1276"),
     }
 }
 
-//@h id=ldro_rule_sx1272 props=C15 tier=quick build=phy cost=40 timeout=900
-//@bounds all 8 SF x 10 BW x 4 CR (the SX1272 supports 125/250/500 kHz), arbitrary prior register contents: decision and RegModemConfig1 bit 0
-//@encodes Sx127x::create_modulation_params, Sx1272::set_modulation_params, Sx1272::bandwidth_value
+//@h id=ldro_bit_sx1276 props=C15,C13 tier=quick build=phy cost=120 timeout=1200
+//@bounds SX1276 set_modulation_params with the LDRO flag symbolic (SF12/125 kHz, any CR), arbitrary prior register contents: RegModemConfig3 bit 3 equals the flag
+//@encodes Sx1276::set_modulation_params
+#[kani::proof]
+#[kani::unwind(26)]
+fn ldro_bit_sx1276() {
+    let mut r = radio_1276();
+    r.data = Default::default();
+    let ldro: bool = kani::any();
+    let mp = ModulationParams { spreading_factor: SpreadingFactor::_12, bandwidth: Bandwidth::_125KHz, coding_rate: any_cr(), low_data_rate_optimize: ldro as u8, frequency_in_hz: 868_100_000 };
+    let res = block_on(r.set_modulation_params(&mp));
+    kani::assert(res.is_ok(), "set_modulation_params failed on a fault-free bus");
+    match last_write(spi(), 0x26) {
+        Some(v) => kani::assert((v & 0x08 != 0) == ldro, "C15: RegModemConfig3.LowDataRateOptimize programmed into the SX1276"),
+        None => kani::assert(false, "C15: RegModemConfig3 not written"),
+    }
+}
+
+//@h id=ldro_rule_sx1272 props=C15 tier=quick build=phy cost=20 timeout=900
+//@bounds all 8 SF x 10 BW x 4 CR (the SX1272 supports 125/250/500 kHz): LDRO decision
+//@encodes Sx127x::create_modulation_params, Sx1272::bandwidth_value
 #[kani::proof]
 #[kani::unwind(26)]
 fn ldro_rule_sx1272() {
-    let mut r = radio_1272();
+    let r = radio_1272();
     let (sf, bw, cr) = (any_sf(), any_bw(), any_cr());
     let f: u32 = kani::any();
     kani::assume(f >= 400_000_000);
@@ -64,14 +76,25 @@ fn ldro_rule_sx1272() {
             kani::cover!(mp.low_data_rate_optimize == 1, "ldro on");
             kani::assert(matches!(bw, Bandwidth::_125KHz | Bandwidth::_250KHz | Bandwidth::_500KHz), "C15: SX1272 supports three bandwidths");
             kani::assert((mp.low_data_rate_optimize != 0) == ref_ldro(sf, bw), "C15: SX127x LDRO decision differs from 2^SF/BW >= 16.38 ms");
-            let res = block_on(r.set_modulation_params(&mp));
-            kani::assert(res.is_ok(), "set_modulation_params failed on a fault-free bus");
-            match last_write(spi(), 0x1D) {
-                Some(v) => kani::assert((v & 0x01 != 0) == ref_ldro(sf, bw), "C15: RegModemConfig1.LowDataRateOptimize programmed into the SX1272"),
-                None => kani::assert(false, "C15: RegModemConfig1 not written"),
-            }
         }
         Err(_) => {}
+    }
+}
+
+//@h id=ldro_bit_sx1272 props=C15,C13 tier=quick build=phy cost=90 timeout=1200
+//@bounds SX1272 set_modulation_params with the LDRO flag symbolic, arbitrary prior register contents: RegModemConfig1 bit 0 equals the flag
+//@encodes Sx1272::set_modulation_params
+#[kani::proof]
+#[kani::unwind(26)]
+fn ldro_bit_sx1272() {
+    let mut r = radio_1272();
+    let ldro: bool = kani::any();
+    let mp = ModulationParams { spreading_factor: SpreadingFactor::_12, bandwidth: Bandwidth::_125KHz, coding_rate: any_cr(), low_data_rate_optimize: ldro as u8, frequency_in_hz: 868_100_000 };
+    let res = block_on(r.set_modulation_params(&mp));
+    kani::assert(res.is_ok(), "set_modulation_params failed on a fault-free bus");
+    match last_write(spi(), 0x1D) {
+        Some(v) => kani::assert((v & 0x01 != 0) == ldro, "C15: RegModemConfig1.LowDataRateOptimize programmed into the SX1272"),
+        None => kani::assert(false, "C15: RegModemConfig1 not written"),
     }
 }
 
